@@ -344,6 +344,33 @@ def check_zone(item, zone, batch, rec, case):
                               f'{ierr[snum]!r}), printed score {score!r} '
                               f'sigma% {sigma!r}', case)
                 return
+    elif dint is not None and any(isinstance(i, tuple) for i in integ) \
+            and all(i is not None for i in integ):
+        # some steps converged, the others not yet: the printed numbers
+        # under their step, no number for the others
+        ival = np.asarray(dint.value, dtype=float).reshape(-1)
+        ierr = np.asarray(dint.error, dtype=float).reshape(-1)
+        if len(ival) != len(steps):
+            rec.violation('integrated-result-shape', f'{where}: '
+                          f'{np.shape(dint.value)}', case)
+            return
+        for snum, one in enumerate(integ):
+            rec.count('synthetic_cells_compared')
+            if one == 'not_converged':
+                if not np.isnan(ival[snum]):
+                    rec.violation('integrated-result-invented',
+                                  f'{where} step {snum}: NOT YET CONVERGED '
+                                  f'was printed, parsed {ival[snum]!r}', case)
+                    return
+            elif float(ival[snum]) != one[0] or not close(
+                    float(ierr[snum]), one[0] * one[1] / 100.0):
+                rec.violation('integrated-result-differs',
+                              f'{where} step {snum}: ({ival[snum]!r}, '
+                              f'{ierr[snum]!r}), printed score {one[0]!r} '
+                              f'sigma% {one[1]!r} (other steps not '
+                              'converged)', case)
+                return
+        rec.count('mixed_convergence_zones')
     elif dint is not None and all(i is None for i in integ):
         rec.violation('integrated-result-invented', where, case)
     elif dint is not None and all(i == 'not_converged' for i in integ):
